@@ -66,6 +66,7 @@ RowTagged ==
 RowApi == Is("api") =>
   /\ R.tag = Field(BVof(R.g), 0, R.k)          \* with_tag/tag round trip, truncated to the alignment bits
   /\ R.same_obj = 1                             \* dereference still reaches the object
+  /\ R.same_mut = 1                             \* deref_mut / as_mut reach the same address as deref / as_ref
   /\ R.null = 0 /\ R.nullnull = 1               \* non-null stays non-null; a tagged, timestamped null is null
   /\ R.ptr_eq_ts = 1                            \* ptr_eq ignores the timestamp
   /\ R.ptr_eq_tag = (IF R.tag = R.tag0 THEN 1 ELSE 0)
